@@ -74,14 +74,14 @@ reg(P(
 
 reg(P(
     "C01", "Python encoder emits exactly the specified bit layout",
-    [("D5", {"ast", "py", "common"}), ("A4", {"ast", "py"}), ("D1", {"py"}), ("E1", {"py"}), ("C3", {"py", "ast"}), ("D3", {"py"}), ("D6", {"py"}), ("D7", {"py"}), ("C4", {"py"})],
+    [("D5", {"ast", "py", "common"}), ("A4", {"ast", "py"}), ("D1", {"py"}), ("E1", {"py"}), ("C3", {"py", "ast"}), ("D3", {"py"}), ("D6", {"py"}), ("D7", {"py"}), ("C4", {"py"}), ("R1", {"py"})],
     "size arithmetic equals the specification and BYTES_LENGTH / the encode allocation come from Message.nbytes() (D5); the processor list and dataclass fields are emitted in ascending field-number order (A4); the single-chunk encoder of bp.py equals the layout rule's normal form - stream byte i div 8, value byte 8*(j div 8), shift j mod 8 - i mod 8, mask 2^(i mod 8 + c) - 2^(i mod 8), OR store (D1) - and the chunk size satisfies 1 <= c <= 8, fits both bytes and never exceeds the field (E1); prefix: 16 bits, written before the children, carrying nbits/capacity (C3, D3); generated getters return (field >> rshift) for the field with that number and array depth (D6); alias/enum processors only delegate (D7); generator/runtime constructor arguments agree positionally (C4).",
     "that the composition of these yields the exact bytes for every schema and value (nothing is executed; no proof of the whole encoder).",
 ))
 
 reg(P(
     "C02", "Python decode(encode(v)) == v, and re-encoding reproduces the bytes",
-    [("D1", {"py"}), ("E1", {"py"}), ("D6", {"py", "py-decode"}), ("D4", {"py"}), ("D3", {"py"}), ("D7", {"py"}), ("C3", {"py"}), ("C4", {"py"})],
+    [("D1", {"py"}), ("E1", {"py"}), ("D6", {"py", "py-decode"}), ("D4", {"py"}), ("D3", {"py"}), ("D7", {"py"}), ("C3", {"py"}), ("C4", {"py"}), ("R1", {"py"})],
     "the decode chunk is the mirror of the encode chunk (D1 both directions against the same specification form); set-byte items OR a totally-converted chunk into the same reference the get-byte item reads, `=` only for bool, enum chunks go to the integer proxy (D6); sign extension from bit n-1 with mask -(2^n) for every width narrower than its storage, bp.intN thresholds 2^(N-1) / modulus 2^N (D4); decode half of the extensible processors including the skip target (D3); mask < 256 and progress (E1).",
     "equality of values; exceptions inside dataclasses / IntEnum for member values.",
 ))
@@ -103,14 +103,14 @@ reg(P(
 
 reg(P(
     "C19", "Go standard-mode output describes the same messages as the Python output",
-    [("D6", {"go"}), ("A2", {"go", "common"}), ("A4", {"go", "ast"}), ("C2", {"generator", "go"}), ("D5", {"go", "ast", "common"}), ("D4", {"go"}), ("D1", {"go"}), ("E1", {"go"}), ("D3", {"go"}), ("D7", {"go"}), ("C3", {"go"}), ("C4", {"go"}), ("G1", ALL)],
+    [("D6", {"go"}), ("A2", {"go", "common"}), ("A4", {"go", "ast"}), ("C2", {"generator", "go"}), ("D5", {"go", "ast", "common"}), ("D4", {"go"}), ("D1", {"go"}), ("E1", {"go"}), ("D3", {"go"}), ("D7", {"go"}), ("C3", {"go"}), ("C4", {"go"}), ("G1", ALL), ("R1", {"go"})],
     "Go struct fields and processor list in ascending field-number order (A4) with the smallest covering integer types (C2); size constant and Size() from Message.nbytes() (D5); processor constructors agree positionally with the runtime's New* functions (C4); byte accessors address the field by number and array depth, widen before the left shift and narrow after the right shift, conversion type = leaf type / alias name (D6); shift-pair sign extension exactly for widths narrower than storage (D4); the Go runtime's chunk helpers, loop and extensible processors reach the same normal forms as the specification, hence as Python's (D1, E1, D3, D7, C3, G1).",
     "that generated Go compiles (no Go toolchain in the sandbox).",
 ))
 
 reg(P(
     "C03", "C standard mode writes/reads the same bytes as the specification and Python",
-    [("A4", {"c", "ast"}), ("CC4", ALL), ("A2", {"c", "common"}), ("CA2", ALL), ("C2", {"generator", "c"}), ("CC2", ALL), ("EC3", ALL), ("CD4", ALL), ("EC1", ALL), ("EC2", ALL), ("D5", {"ast", "c", "common"}), ("C3", {"ast"})],
+    [("A4", {"c", "ast"}), ("CC4", ALL), ("A2", {"c", "common"}), ("CA2", ALL), ("C2", {"generator", "c"}), ("CC2", ALL), ("EC3", ALL), ("CD4", ALL), ("EC1", ALL), ("EC2", ALL), ("D5", {"ast", "c", "common"}), ("C3", {"ast"}), ("R1", {"c"})],
     "generator side: descriptor array in ascending field-number order (A4); format_bp_* templates, constructor macros and struct members agree positionally, sizes are sizeof of the same node's C type, the k-th descriptor carries address, type and name of the same field (CC4); dispatch chains cover their domains (A2). Runtime side, both build variants: every flag switch covers the flags its callers can pass and routes them to the right routine (CA2); storage partitions agree with the generator (C2, CC2); extensible processors, prefix coders, cursor advance, encode/decode orientation of the copier calls (EC3); sign extension cases (CD4); bit copier: on all paths x all 64 (si, di): 1 <= c <= n, word loads/stores inside the field's bytes, `=` stores only at di = 0, partial stores masked to c bits (EC1); batch path only for storage-sized integer elements (EC2).",
     "bit-exactness of the C partial-byte expressions beyond the mask form; byte-for-byte equality with Python; compiler optimisation levels.",
 ))
@@ -138,7 +138,7 @@ reg(P(
 
 reg(P(
     "C10", "Every accepted schema yields code the target toolchains accept (narrow: necessary structural conditions)",
-    [("F2", ALL), ("F1", ALL), ("A2", ALL), ("A1", {"render"}), ("A13", ALL), ("F6", ALL), ("F6b", ALL), ("F7", ALL), ("F8", ALL), ("C5", {"common"})],
+    [("F2", ALL), ("F1", ALL), ("A2", ALL), ("A1", {"render"}), ("A13", ALL), ("F6", ALL), ("F6b", ALL), ("F7", ALL), ("F8", ALL), ("C5", {"common"}), ("F9", ALL)],
     "definitions are emitted children first in declaration order for the bound proto (F2); each block class pushes balanced brackets and #if/#endif on every path (F1); rendering raises no internal error: exhaustive dispatch, abstract coverage, render-context and push_string discipline (A2, A1 render part, A13); internal helper-name templates are uniquely decodable (F6); include/import statements name the file the compiler generates (F7).",
     "whether gcc, g++, CPython or Go accept the output (that needs the output); struct layout equality in C++; reserved words.",
 ))
@@ -152,7 +152,7 @@ reg(P(
 
 reg(P(
     "C14", "Every width x bit-offset x signedness combination is bit-exact in every runtime",
-    [("E1", ALL), ("D1", ALL), ("EC1", ALL), ("EC2", ALL), ("C2", ALL), ("CC2", ALL), ("D4", ALL), ("CD4", ALL), ("G1", ALL), ("D2", ALL)],
+    [("E1", ALL), ("D1", ALL), ("EC1", ALL), ("EC2", ALL), ("C2", ALL), ("CC2", ALL), ("D4", ALL), ("CD4", ALL), ("G1", ALL), ("D2", ALL), ("R1", ALL)],
     "the obligations are parametric in (n, si, di), which is this property's space: chunk bounds for Python/Go/planner (E1) and the chunk plan (D1); the C copier's obligations on every path for all 64 (si, di) pairs and every n in the path's interval, both build variants (EC1); batch predicate (EC2); storage partitions (C2, CC2); sign extension sites incl. bp.intN thresholds and the C cases (D4, CD4).",
     "bit-exactness of the C partial-byte expressions beyond their mask form.",
 ))
